@@ -47,6 +47,10 @@ pub struct MonState {
     pub max_gas_accounted: usize,
     pub cost_at:         Vec<usize>,
     pub want_executed:   bool,
+    pub culled:          u64,
+    pub culled_ids:      std::collections::HashMap<String, u32>,
+    pub culled_dups:     Vec<(String, u32, u32)>,
+    pub culled_under:    Vec<(u32, usize, usize)>,
     pub executed:        std::collections::BTreeSet<u32>,
     pub thread_opgas:    Vec<usize>,
     pub thread_pending:  Vec<usize>,
@@ -99,6 +103,10 @@ impl MonState {
             max_gas_accounted: 0,
             cost_at: Vec::new(),
             want_executed: false,
+            culled: 0,
+            culled_ids: std::collections::HashMap::new(),
+            culled_dups: Vec::new(),
+            culled_under: Vec::new(),
             executed: std::collections::BTreeSet::new(),
             thread_opgas: vec![0],
             thread_pending: vec![0],
@@ -199,6 +207,9 @@ impl MonState {
             "stop_site": self.stop_site,
             "max_gas_accounted": self.max_gas_accounted,
             "executed_ips": if self.want_executed { json!(self.executed.iter().collect::<Vec<_>>()) } else { J::Null },
+            "culled": self.culled,
+            "culled_dups": self.culled_dups.iter().map(|(id, a, b)| json!([id, a, b])).collect::<Vec<_>>(),
+            "culled_under": self.culled_under.iter().map(|(ip, n, l)| json!([ip, n, l])).collect::<Vec<_>>(),
             "max_opgas_before": self.max_opgas_before,
             "max_opgas_at": self.max_opgas_at,
             "retire_gas": self.retire_gas.iter().map(|(ip, g)| json!([ip, g])).collect::<Vec<_>>(),
@@ -336,6 +347,21 @@ impl Monitor for DriverMonitor {
                     st.max_gap = st.gap;
                 }
                 s.tr(|| format!("L{site}:{index}"));
+            }
+            Event::Culled { ip, id, nodes, limit } => {
+                // every replacement must be a value nobody has seen before
+                s.culled += 1;
+                if nodes <= limit && s.culled_under.len() < 50 {
+                    s.culled_under.push((ip, nodes, limit));
+                }
+                if let Some(first) = s.culled_ids.get(&id).copied() {
+                    if s.culled_dups.len() < 50 {
+                        s.culled_dups.push((id.clone(), first, ip));
+                    }
+                } else if s.culled_ids.len() < 2_000_000 {
+                    s.culled_ids.insert(id.clone(), ip);
+                }
+                s.tr(|| format!("C{ip}:{nodes}:{limit}:{id}"));
             }
             Event::Round { type_vars, progress } => {
                 s.round_count += 1;
